@@ -429,6 +429,7 @@ func init() {
 				cc.runMono(m)
 			}
 			c12v4(cc)
+			c10v3(cc)
 			if cc.Tier != "thorough" {
 				cc.Exhaustive = false
 				cc.Notes = append(cc.Notes, "quick tier: exhaustive for v2.0, v3.0 and the v3.1 base/temporal/outer-environmental stages; the v3.1 inner environmental stage (7,776 of 165,888 classes) and the v4.0 abstract states (box corners of 52,650 states) are stated subsets, complete in the thorough tier")
